@@ -309,10 +309,12 @@ def run_case(ctx, case, label):
           "opts": {"transport": list(opts.transport), "metadata": bool(opts.metadata), "restAsync": bool(ex.rest_async_io_enabled),
                    "unversionedDisabled": bool(ex.unversioned_package_disabled)}}
     mo = ctx.driver.ask([op])[0]
-    got = sorted(f.name for f in res.file if not f.name.startswith("samples/"))
-    model = sorted(set(mo["files"]))
+    got = sorted(f.name for f in res.file if not f.name.startswith("samples/"))      # WITH multiplicity: the model's names are unique
+    model = sorted(mo["files"])
+    if len(set(model)) != len(model):
+        ctx.disagree("T3:c11.file-set", "the model's response names are not unique", payload)
     ctx.traces += 1
-    extra = [n for n in got if n not in model]
+    extra = [n for n in got if n not in model] + [n for n in set(got) if got.count(n) > 1]
     missing = [n for n in model if n not in got]
     # the empty-module rule: a model file may be absent iff its module would be empty (only pagers.py can be, when no method is paged)
     # (pagers.py when no method is paged) or it is a macro-only template (feature_fragments, test_macros)
